@@ -541,6 +541,9 @@ class GetAttrOther(Contract):
     def raises(self, cx, S, e):
         return e.exc == 'AttributeError'
 
+    def ensures(self, cx, S, result):
+        return [('only-bracketed-names-create-classes', z3.BoolVal(False))]
+
     def replay(self, ob):
         return native('names_check()')
 
